@@ -547,6 +547,19 @@ def run_check(prop, tier, seed):
         if not b["ok"]:
             broken.append({"kind": "obligation", "name": "Properties/%s.v" % prop.id,
                            "broken_at": b.get("broken_at"), "log": b["log"][-3000:]})
+        # thorough tier: independent re-check of the compiled theorems and of everything they depend on
+        coqchk_axioms = None
+        if tier == "thorough" and b["ok"] and os.environ.get("VERIF_SKIP_COQCHK") != "1":
+            with CoqLock():
+                rc_, out_ = run(["coqchk", "-R", ".", "TW", "-o", "TW.Properties.%s" % prop.id], 1500, cwd=COQ)
+            m_ = re.search(r"\* Axioms:(.*?)\n\s*\n\s*\*", out_, re.S)
+            coqchk_axioms = (m_.group(1).strip() if m_ else "coqchk output not understood (rc=%s)" % rc_)
+            if rc_ != 0 or "Modules were successfully checked" not in out_:
+                print("CHECK-BROKEN: coqchk failed on Properties/%s.vo: %s" % (prop.id, out_[-400:]))
+                return 2
+            if coqchk_axioms != "<none>":
+                print("CHECK-BROKEN: coqchk reports axioms: " + coqchk_axioms[:300])
+                return 2
         hy = hygiene()
         if hy:
             print("CHECK-BROKEN: hygiene: " + "; ".join(hy[:5]))
@@ -646,6 +659,7 @@ def run_check(prop, tier, seed):
                 "broken": [{"kind": bb["kind"], "name": bb["name"]} for bb in broken],
                 "known_findings_seen": sorted(seen_known),
                 "make_s": b.get("make_s"),
+                "coqchk_axioms": coqchk_axioms,
             },
             "assumptions": list(prop.assumptions),
             "wall_s": round(time.time() - t0, 1),
